@@ -495,6 +495,12 @@ func (c *Compiler) applyUsesToNode(mod, nod, use parse.Node, parentStatus schema
 		// Local grouping. Search the grouping space of the local node,
 		// not just the module globals. Also check for status conflicts
 		group, ok = nod.LookupGrouping(gname.Local)
+		if !ok {
+			// nod may be a copy of a node of another module's grouping
+			// (a uses inside the augment of a uses): its scope is that
+			// module's, so fall back to the groupings of the local module.
+			group, ok = gmod.LookupGrouping(gname.Local)
+		}
 	} else {
 		group, ok = gmod.LookupGrouping(gname.Local)
 	}
